@@ -497,6 +497,10 @@ class QasmProcessor:
                 for arg in com_args
             ]
             com_regs = [_substitute(reg, regs_map) for reg in com_regs]
+            if len(set(com_regs)) != len(com_regs):
+                raise ValueError(
+                    "QASM: a qubit is used twice in one statement"
+                )
 
             if name in self.predefined_gates:
                 qc_temp.user_gates = _get_qiskit_gates()
